@@ -475,3 +475,6 @@ uint64_t vp_bswap(uint64_t v, int bits) { uint64_t r = 0; for (int i = 0; i < bi
 uint64_t vp_abs(uint64_t v, int bits) { int64_t x = vp_sext(v, bits); return (uint64_t)(x < 0 ? -x : x) & VP_BM(bits); }
 uint64_t vp_fshl(uint64_t a, uint64_t b, uint64_t c, int bits) { c %= (uint64_t)bits; if (c == 0) return a & VP_BM(bits); return ((a << c) | ((b & VP_BM(bits)) >> (bits - c))) & VP_BM(bits); }
 uint64_t vp_fshr(uint64_t a, uint64_t b, uint64_t c, int bits) { c %= (uint64_t)bits; if (c == 0) return b & VP_BM(bits); return ((a << (bits - c)) | ((b & VP_BM(bits)) >> c)) & VP_BM(bits); }
+
+/* static-storage destructors are never run by a harness (quiescence is checked by the harness itself) */
+int __cxa_atexit(uint64_t fn, uint64_t arg, uint64_t dso) { return 0; }
